@@ -153,7 +153,12 @@ func main() {
 		}
 	}
 	W = world(thorough)
-	spec := &xplore.Spec{Name: "c11", Run: runHist, Recycle: 300, Describe: func(h []int) interface{} { return W.Describe(h) }}
+	spec := &xplore.Spec{Name: "c11", Run: runHist, Recycle: 300, Describe: func(h []int) interface{} {
+		if len(h) > 0 && h[0] == tieMarker {
+			return tieDescribe(h)
+		}
+		return W.Describe(h)
+	}}
 	if par.IsWorker() {
 		xplore.Worker(spec)
 	}
